@@ -234,3 +234,21 @@ func VerifC09_RepeatedCalls() {
 		zzverif.Reach("example-fails")
 	}
 }
+
+// ZzC09Pair hands two processings of the same three-type project to the
+// harness of package jsoac (OpenAPI Schema Objects): under two map orders,
+// two registration orders, or simply twice. before2 is called between the two
+// builds (the caller switches the map order there).
+func ZzC09Pair(perm int, before2 func()) (*JSchema, *JSchema, []string) {
+	root, ts := dTypes()
+	perms := [][]int{{0, 1, 2}, {0, 2, 1}, {1, 0, 2}, {1, 2, 0}, {2, 0, 1}, {2, 1, 0}}
+	s1 := dBuild(root, ts, perms[0])
+	e1 := s1.Check()
+	before2()
+	s2 := dBuild(root, ts, perms[perm])
+	e2 := s2.Check()
+	if e1 != nil || e2 != nil {
+		return nil, nil, nil
+	}
+	return s1, s2, []string{ts[0].name, ts[1].name, ts[2].name}
+}
